@@ -116,7 +116,7 @@ def h_tool(k0: int, k1: int, k2: int, k3: int, k4: int, k5: int, k6: int, k7: in
     keys = [k0, k1, k2, k3, k4, k5, k6, k7, k8, k9, k10, k11]
     lens = [n0, n1, n2, n3]
     d = build_data(keys, lens, [p0, p1, p2], [b0, b1, b2], S, P("form"))
-    o = Opts(fl=[P("fl", "agen")] * 4, ffl=P("ffl", "def"))
+    o = Opts(fl=(P("fls") or [P("fl", "agen")] * 4), ffl=P("ffl", "def"))
     r = run_both(tool, d, o, use_spec=P("spec", False))
     if r is None:
         return finish(False, False)
@@ -177,7 +177,7 @@ def h_merge(base0: int, base1: int, base2: int, base3: int, d0: int, d1: int, d2
             row.append(Item(cur, "%d.%d" % (i, j)))
         srcs.append(row)
     d = Data(srcs, [], [rev, usekey])
-    o = Opts(fl=[P("fl", "agen")] * 4, ffl=P("ffl", "def"))
+    o = Opts(fl=(P("fls") or [P("fl", "agen")] * 4), ffl=P("ffl", "def"))
     r = run_both(tool, d, o)
     if r is None:
         return finish(False, False)
@@ -422,6 +422,11 @@ def jobs(tier):
         for rev in (False, True):
             for uk in (False, True):
                 add("h_merge", T, S=len(L), N=max(L), L=L, rev=rev, usekey=uk)
+    for form in (2, 3):
+        add("h_tool", T, tool="islice", S=1, N=4, spec=True, form=form, fl="acls")
+    add("h_tool", T, tool="zip", S=2, N=2, fl="acls")
+    add("h_tool", T, tool="compress", S=2, N=2, fl="adual")
+    add("h_tool", T, tool="chain", S=2, N=2, fl="bare")
     add("h_accumulate_add", T, N=5, fl="agen")
     add("h_accumulate_add", T, N=3, fl="agen", kind="list")
     for t, S_ in (("zip", 2), ("zip_longest", 2), ("chain", 2), ("islice", 1), ("batched", 1), ("pairwise", 1), ("enumerate0", 1), ("cycle", 1), ("compress", 2), ("filter_none", 1), ("filterfalse_none", 1), ("iter_sentinel", 1)):
